@@ -147,6 +147,7 @@ type Sched struct {
 	Panics  []string
 	OnPanic func(t *Thread, v any, stack string)
 	ended   bool
+	nextID  int
 	inSched int // >0 while strategy / environment code runs on the scheduler's behalf
 }
 
@@ -176,7 +177,22 @@ func GoNamed(name string, group int, f func()) *Thread {
 	if s.killed {
 		return nil
 	}
-	t := &Thread{ID: len(s.Threads), Name: name, wake: make(chan struct{}, 1), kind: opStart, Group: group, What: "start"}
+	if len(s.Threads) >= 64 && len(s.Threads)%64 == 0 {
+		// drop finished threads so that long sequential runs stay linear
+		w := 0
+		for _, x := range s.Threads {
+			if !x.done {
+				s.Threads[w] = x
+				w++
+			}
+		}
+		for i := w; i < len(s.Threads); i++ {
+			s.Threads[i] = nil
+		}
+		s.Threads = s.Threads[:w]
+	}
+	s.nextID++
+	t := &Thread{ID: s.nextID - 1, Name: name, wake: make(chan struct{}, 1), kind: opStart, Group: group, What: "start"}
 	if s.cur != nil {
 		if group < 0 {
 			t.Group = s.cur.Group
